@@ -50,13 +50,22 @@ def make_tracer(base_cls, log):
             log.append({"k": "data", "text": text, "escape": escape, "nelem": len(self.elementstack), "synth": self._in_tag, "pid": id(self)})
             return super().handle_data(text, escape)
 
+        _in_eref = 0
+
         def handle_charref(self, ref):
-            log.append({"k": "charref", "ref": ref, "pid": id(self)})
+            log.append({"k": "charref", "ref": ref, "nelem": len(self.elementstack), "pid": id(self)})
             return super().handle_charref(ref)
 
         def handle_entityref(self, ref):
-            log.append({"k": "entityref", "ref": ref, "pid": id(self)})
-            return super().handle_entityref(ref)
+            # (handle_entityref re-enters itself for a DOCTYPE entity whose replacement is a character reference: only the outermost call is an event)
+            if not self._in_eref:
+                ents = getattr(self, "entities", None) or {}
+                log.append({"k": "entityref", "ref": ref, "found": ref in ents, "text": ents.get(ref, ""), "nelem": len(self.elementstack), "pid": id(self)})
+            self._in_eref += 1
+            try:
+                return super().handle_entityref(ref)
+            finally:
+                self._in_eref -= 1
 
         # stage 2 (text constructs): what the post-processing steps of pop() answer -- parameters of the model
         @staticmethod
